@@ -715,15 +715,23 @@ pub fn spellings(f: &Frame) -> Vec<(String, Vec<u8>)> {
         g.body.push(empty_props(&f.typ));
         out.push(("explicit empty property length".to_string(), g.bytes()));
     }
-    // property order reversed (any order is legal)
+    // another property order (any order is legal; only the relative order of user properties carries meaning):
+    // user properties first, in their order, then the others reversed
     for i in 0..f.body.len() {
         if let Seg::Props { items, .. } = &f.body[i] {
             if items.len() >= 2 {
                 let mut g = f.clone();
                 if let Seg::Props { items: it, .. } = &mut g.body[i] {
-                    it.reverse();
+                    let is_user = |x: &Vec<Seg>| matches!(&x[0], Seg::Leaf { bytes, .. } if bytes[0] == 0x26);
+                    let mut users: Vec<Vec<Seg>> = it.iter().filter(|x| is_user(x)).cloned().collect();
+                    let mut others: Vec<Vec<Seg>> = it.iter().filter(|x| !is_user(x)).cloned().collect();
+                    others.reverse();
+                    users.extend(others);
+                    *it = users;
                 }
-                out.push(("properties in reverse order".to_string(), g.bytes()));
+                if g.bytes() != f.bytes() {
+                    out.push(("properties in another order".to_string(), g.bytes()));
+                }
             }
         }
     }
